@@ -14,10 +14,10 @@ Import ListNotations.
    evaluator (which may throw), truthiness and entry poll *)
 Theorem C01_control_flow_refines_generic :
   forall (st val expr : Type) (eval : st -> expr -> st * (val + val)) (truthy : val -> bool)
-         (poll : st -> st * option val) (recatch : val -> val) (fuel : nat) (s : stmt expr) (s0 : st),
+         (poll : st -> st * option val) (recatch : val -> val) (veq : val -> val -> bool) (fuel : nat) (s : stmt expr) (s0 : st),
     wf s = true ->
-    let '(s1, L1, ro) := exec_o eval truthy poll recatch fuel s0 [] s in
-    let '(s2, rs) := exec_s eval truthy poll recatch fuel s0 [] s in
+    let '(s1, L1, ro) := exec_o eval truthy poll recatch veq fuel s0 [] s in
+    let '(s2, rs) := exec_s eval truthy poll recatch veq fuel s0 [] s in
     s1 = s2 /\ rel val [] ro rs /\ L1 = [].
 Proof. exact control_flow_refines. Qed.
 Print Assumptions C01_control_flow_refines_generic.
